@@ -1,6 +1,7 @@
 mod appender;
 mod core_sim;
 mod directive_sim;
+mod fmt_sim;
 mod fsites;
 mod driver;
 mod fw;
@@ -18,7 +19,7 @@ use fw::{Engine, GenCtx};
 use serde_json::Value;
 use std::io::Read;
 
-static ENGINES: &[&(dyn Engine)] = &[&appender::AppenderEngine, &core_sim::CoreEngine, &registry_sim::RegistryEngine, &span_sim::SpanEngine, &stack_sim::StackEngine, &wrap_sim::WrapEngine, &reload_sim::ReloadEngine, &directive_sim::DirectiveEngine];
+static ENGINES: &[&(dyn Engine)] = &[&appender::AppenderEngine, &core_sim::CoreEngine, &registry_sim::RegistryEngine, &span_sim::SpanEngine, &stack_sim::StackEngine, &wrap_sim::WrapEngine, &reload_sim::ReloadEngine, &directive_sim::DirectiveEngine, &fmt_sim::FmtEngine];
 
 fn engine_for_prop(prop: &str) -> Option<&'static dyn Engine> {
     ENGINES.iter().copied().find(|e| e.props().contains(&prop))
@@ -40,6 +41,7 @@ fn budget(prop: &str) -> (u64, u64) {
         "C09" => (120_000, 2_500_000),
         "C11" => (80_000, 1_500_000),
         "C12" => (100_000, 2_000_000),
+        "C13" => (80_000, 1_500_000),
         "C06" => (120_000, 2_500_000),
         _ => (40_000, 1_000_000),
     }
